@@ -5,10 +5,12 @@ package main
 // two-way branches. All ordering rules (E3) are reachability questions on it.
 
 import (
+	"fmt"
 	"go/ast"
 	"go/token"
 	"go/types"
 	"sort"
+	"strings"
 
 	"golang.org/x/tools/go/cfg"
 	"golang.org/x/tools/go/packages"
@@ -462,4 +464,24 @@ func (f *Flat) returnsNilError(id int, sig *types.Signature) (isRet bool, nilErr
 
 func isErrorType(t types.Type) bool {
 	return types.Identical(t, types.Universe.Lookup("error").Type())
+}
+
+// Dump prints the flat CFG (debug aid).
+func (f *Flat) Dump() string {
+	var sb strings.Builder
+	for _, n := range f.Nodes {
+		desc := "<entry " + n.Block.String() + ">"
+		if n.Ast != nil {
+			desc = fmt.Sprintf("%T %s", n.Ast, f.P.pos(n.Ast))
+			if e, ok := n.Ast.(ast.Expr); ok {
+				desc += " " + types.ExprString(e)
+			}
+		}
+		fmt.Fprintf(&sb, "%3d cond=%v exit=%v %s ->", n.ID, n.IsCond, n.Exit, desc)
+		for _, e := range n.Succs {
+			fmt.Fprintf(&sb, " %d/%d", e.To, e.Label)
+		}
+		sb.WriteString("\n")
+	}
+	return sb.String()
 }
